@@ -93,7 +93,7 @@ BadState ==
           [] n = "C11_ItemsHeld"       -> ~C11_ItemsHeld
           [] n = "C15_Error"           -> ~C15_Error}
 ReportState ==
-    l > 1 => PrintT(<<"TRACE", ToJson([t |-> tid, l |-> l - 1, bo |-> {}, bi |-> BadState])>>)
+    l > 1 => PrintT(<<"TRACE", ToJson([t |-> tid, l |-> l - 1, bo |-> {}, bi |-> BadState, st |-> TRUE])>>)
 
 TraceView == <<cfgs, tid, l>>
 ====
